@@ -9,7 +9,9 @@
       canonical token of its exact value (decimal integer when integral, `repr(float)` otherwise,
       `-0.0` as `0`): Python `==` between two numbers is `True` iff the tokens are equal
       (`1 == 1.0 == True`);
-    * a tz-naive timestamp is carried as its integer nanosecond count;
+    * a tz-naive timestamp is carried as its integer nanosecond count, a tz-aware one as the nanosecond
+      count of its UTC instant (pandas / datetime compare aware timestamps by instant and answer False,
+      without raising, for aware == naive);
     * the four "missing" flavours `None`, float NaN, `pd.NaT`, `pd.NA` are separate constructors
       because the code treats them differently (`None == None` is True, NaN ≠ NaN, `pd.NA` is
       tested by identity first).
@@ -32,7 +34,8 @@ inductive Miss
 inductive Sc
   | num (tok : Str)    -- int / float / bool by exact value
   | str (s : Str)
-  | ts (tok : Str)     -- Timestamp / datetime
+  | ts (tok : Str)     -- tz-naive Timestamp / datetime: its nanosecond count
+  | tsz (tok : Str)    -- tz-aware Timestamp / datetime: the nanosecond count of its UTC instant
   | miss (k : Miss)
   deriving DecidableEq, Repr
 
@@ -51,6 +54,7 @@ def pyEq : Sc → Sc → Bool
   | .num a, .num b => a == b
   | .str a, .str b => a == b
   | .ts a, .ts b => a == b
+  | .tsz a, .tsz b => a == b           -- same instant, whatever the two time zones; aware vs naive is False
   | .miss .none, .miss .none => true   -- `None == None`
   | _, _ => false                      -- NaN ≠ NaN, NaT ≠ NaT, different kinds never equal
 
